@@ -352,7 +352,11 @@ func (e *clEngine) step() {
 	case kind < 86: // collect spread rewards
 		q := e.anyPos()
 		var resp *cltypes.MsgCollectSpreadRewardsResponse
-		claimable, _ := k.GetClaimableSpreadRewards(e.ctx(), q.id)
+		var claimable sdk.Coins
+		if !catch(func() { claimable, _ = k.GetClaimableSpreadRewards(e.ctx(), q.id) }) {
+			o.Fail("rewards:claimable-query-panicked", fmt.Sprintf("op %d pos %d", e.opn, q.id))
+			return
+		}
 		err := e.atomic(func(ctx sdk.Context) error {
 			var err error
 			resp, err = ms.CollectSpreadRewards(ctx, &cltypes.MsgCollectSpreadRewards{PositionIds: []uint64{q.id}, Sender: e.accs[q.owner].String()})
@@ -370,7 +374,11 @@ func (e *clEngine) step() {
 		e.feesOut[0].Add(e.feesOut[0], resp.CollectedSpreadRewards.AmountOf(clDenom0).BigInt())
 		e.feesOut[1].Add(e.feesOut[1], resp.CollectedSpreadRewards.AmountOf(clDenom1).BigInt())
 		// claiming again immediately yields nothing (no duplication)
-		again, _ := k.GetClaimableSpreadRewards(e.ctx(), q.id)
+		var again sdk.Coins
+		if !catch(func() { again, _ = k.GetClaimableSpreadRewards(e.ctx(), q.id) }) {
+			o.Fail("rewards:claimable-query-panicked", fmt.Sprintf("op %d pos %d", e.opn, q.id))
+			return
+		}
 		if !again.IsZero() {
 			o.Fail("rewards:duplicate-claim", fmt.Sprintf("op %d pos %d again %s", e.opn, q.id, again))
 		}
